@@ -483,7 +483,7 @@ namespace awkward {
     }
     std::vector<ssize_t> flatstrides({ itemsize_ });
     ContentPtr out = std::make_shared<NumpyArray>(
-      identities_,
+      Identities::none(),
       parameters_,
       contiguous_self.ptr(),
       flatshape,
@@ -498,7 +498,7 @@ namespace awkward {
       for (int64_t j = 0;  j < i;  j++) {
         zeros_length *= (int64_t)shape_[(size_t)j];
       }
-      out = std::make_shared<RegularArray>(Identities::none(),
+      out = std::make_shared<RegularArray>(i == 1 ? identities_ : Identities::none(),
                                            util::Parameters(),
                                            out,
                                            shape_[(size_t)i],
